@@ -832,11 +832,11 @@ def emit_spec(c):
                 rs,
             )
         )
-    parts = ['PartSpec { name: "", custom_msg: false, custom_query: false }']
+    parts = ['PartSpec { name: "", custom_msg: false, custom_query: false, dyn_ty: "" }']
     for u in c.uses:
         parts.append(
-            'PartSpec { name: "%s", custom_msg: %s, custom_query: %s }'
-            % (u.iface.trait, "true" if u.custom_msg else "false", "true" if u.custom_query else "false")
+            'PartSpec { name: "%s", custom_msg: %s, custom_query: %s, dyn_ty: "%s" }'
+            % (u.iface.trait, "true" if u.custom_msg else "false", "true" if u.custom_query else "false", dyn_key(c, u))
         )
     return """
     pub static SPEC: ContractSpec = ContractSpec {
@@ -1012,7 +1012,7 @@ def emit_entry_glue(c, iface_path):
             }
         };
         let b = match funds { Some(f) => b.with_funds(f), None => b };
-        let ready = match method {
+        let ready: ExecutorBuilder<sylvia::types::ReadyExecutorBuilderState> = match method {
             %s
             _ => return Err(StdError::generic_err(format!("harness: no exec method `{}` on %s", method))),
         };
@@ -1056,8 +1056,104 @@ def emit_entry_glue(c, iface_path):
     pub const PEER_INST: Option<rt::registry::InstFn> = Some(peer_inst);"""
             % (c.name, cc_snake(c.name), gen, "".join(", " + x for x in [typed_args(inst, tmap_for(inst))] if x))
         )
+    w(REMOTE_GLUE % (ST, ST, ST, ST, ST))
+    w(PEER_CONST)
+    # ---- entry
+    store_e = "Some(store)" if not c.custom_chain else "None"
+    store_c = "Some(store)" if c.custom_chain else "None"
+    proxy = "None"
+    if "proxy" in c.tags:
+        w(emit_proxy_glue(c, iface_path))
+        proxy = "Some(PROXY)"
     w(
-        """    pub fn peer_admin(addr: &Addr, admin: Option<&str>) -> WasmMsg {
+        """    pub fn entry() -> Entry {
+        Entry { spec: &SPEC, store_e: %s, store_c: %s, classify, peer: Some(PEER), parts_accept, wrapper_roundtrip, name_lists, reply_ids, proxy: %s }
+    }"""
+        % (store_e, store_c, proxy)
+    )
+    return "\n".join(L)
+
+
+def dyn_key(c, u):
+    """registry key of the `dyn Interface` handle type matching this use"""
+    i = u.iface
+    t = "<%s>" % u.t if "T" in i.assoc else ""
+    chain = "@c" if (c.custom_chain and ("ExecC" in i.assoc or "QueryC" in i.assoc)) else ""
+    return "dyn:%s::%s%s%s" % (c.family, i.mod, t, chain)
+
+
+def emit_dyn_peer(family, i, t, chain, iface_path):
+    """typed helper glue for `Remote<dyn Interface<..>>` handles"""
+    assoc = ["Error = StdError"]
+    if "ExecC" in i.assoc:
+        assoc.append("ExecC = %s" % ("CMsg" if chain else "Empty"))
+    if "QueryC" in i.assoc:
+        assoc.append("QueryC = %s" % ("CQuery" if chain else "Empty"))
+    if "T" in i.assoc:
+        assoc.append("T = %s" % t)
+    TT = "dyn %s::%s::%s<%s>" % (iface_path, i.mod, i.trait, ", ".join(assoc))
+    tmap = {"T": t}
+    exec_arms, query_arms = [], []
+    for h in i.handlers:
+        call = "%s(%s)" % (ctor_of(h.fn), typed_args(h, tmap))
+        if h.kind == "exec":
+            exec_arms.append('"%s:%s" => { use %s::%s::sv::Executor as _; b.%s? }' % (i.trait, h.fn, iface_path, i.mod, call))
+        elif h.kind == "query":
+            query_arms.append('"%s:%s" => { use %s::%s::sv::Querier as _; sylvia::cw_std::to_json_binary(&b.%s?)? }' % (i.trait, h.fn, iface_path, i.mod, call))
+    name = "dynpeer_%s_%s%s" % (i.mod, "".join(ch for ch in (t or "") if ch.isalnum()).lower(), "_c" if chain else "")
+    key = "dyn:%s::%s%s%s" % (family, i.mod, "<%s>" % t if "T" in i.assoc else "", "@c" if chain else "")
+    out = []
+    out.append("pub mod %s {" % name)
+    out.append("    use super::*;")
+    out.append('    pub const KEY: &str = "%s";' % key)
+    out.append("    type TT = %s;" % TT)
+    out.append(
+        """    pub fn peer_exec(storage: &dyn Storage, addr: &Addr, form: u8, slot: Option<&str>, method: &str, args: &[u8], funds: Option<Vec<Coin>>) -> StdResult<WasmMsg> {
+        let v = parse_args(args)?;
+        let b: ExecutorBuilder<(EmptyExecutorBuilderState, TT)> = match form {
+            0 => Remote::<TT>::new(addr.clone()).executor(),
+            1 => Remote::<TT>::borrowed(addr).executor(),
+            2 => ExecutorBuilder::<(EmptyExecutorBuilderState, TT)>::new(addr),
+            _ => {
+                let raw = storage.get(slot.unwrap_or("remote").as_bytes()).ok_or_else(|| StdError::generic_err("harness: empty remote slot"))?;
+                let r: Remote<'static, TT> = sylvia::cw_std::from_json(&raw)?;
+                r.executor()
+            }
+        };
+        let b = match funds { Some(f) => b.with_funds(f), None => b };
+        let ready: ExecutorBuilder<sylvia::types::ReadyExecutorBuilderState> = match method {
+            %s
+            _ => return Err(StdError::generic_err(format!("harness: no exec method `{}` on %s", method))),
+        };
+        Ok(ready.build())
+    }"""
+        % ("\n            ".join(exec_arms), key)
+    )
+    for suffix, qt in (("e", "Empty"), ("c", "CQuery")):
+        out.append(
+            """    pub fn peer_query_%s(q: &QuerierWrapper<%s>, addr: &Addr, form: u8, method: &str, args: &[u8]) -> StdResult<Binary> {
+        let v = parse_args(args)?;
+        let owned;
+        let b: BoundQuerier<%s, TT> = match form {
+            0 => { owned = Remote::<TT>::new(addr.clone()); owned.querier(q) }
+            1 => { owned = Remote::<TT>::borrowed(addr); owned.querier(q) }
+            _ => BoundQuerier::borrowed(addr, q),
+        };
+        Ok(match method {
+            %s
+            _ => return Err(StdError::generic_err(format!("harness: no query method `{}` on %s", method))),
+        })
+    }"""
+            % (suffix, qt, qt, "\n            ".join(query_arms), key)
+        )
+    out.append(REMOTE_GLUE % ("TT", "TT", "TT", "TT", "TT"))
+    out.append("    pub const PEER_INST: Option<rt::registry::InstFn> = None;")
+    out.append(PEER_CONST)
+    out.append("}")
+    return name, "\n".join(out)
+
+
+REMOTE_GLUE = """    pub fn peer_admin(addr: &Addr, admin: Option<&str>) -> WasmMsg {
         let r = Remote::<%s>::new(addr.clone());
         match admin { Some(a) => r.update_admin(a), None => r.clear_admin() }
     }
@@ -1076,26 +1172,15 @@ def emit_entry_glue(c, iface_path):
         storage.set(to.as_bytes(), &sylvia::cw_std::to_json_vec(&r)?);
         Ok(r.as_ref().clone())
     }
-    pub const PEER: rt::registry::PeerFns = rt::registry::PeerFns {
+    pub fn peer_schema_name() -> String {
+        <Remote<'static, %s> as sylvia::schemars::JsonSchema>::schema_name()
+    }"""
+
+PEER_CONST = """    pub const PEER: rt::registry::PeerFns = rt::registry::PeerFns {
         exec: peer_exec, query_e: peer_query_e, query_c: peer_query_c, inst: PEER_INST,
         admin: peer_admin, save_remote: peer_save_remote, resave_remote: peer_resave_remote,
+        schema_name: peer_schema_name,
     };"""
-        % (ST, ST, ST, ST)
-    )
-    # ---- entry
-    store_e = "Some(store)" if not c.custom_chain else "None"
-    store_c = "Some(store)" if c.custom_chain else "None"
-    proxy = "None"
-    if "proxy" in c.tags:
-        w(emit_proxy_glue(c, iface_path))
-        proxy = "Some(PROXY)"
-    w(
-        """    pub fn entry() -> Entry {
-        Entry { spec: &SPEC, store_e: %s, store_c: %s, classify, peer: Some(PEER), parts_accept, wrapper_roundtrip, name_lists, reply_ids, proxy: %s }
-    }"""
-        % (store_e, store_c, proxy)
-    )
-    return "\n".join(L)
 
 
 def emit_proxy_glue(c, iface_path):
@@ -1441,6 +1526,35 @@ def family_f1(rng):
     cs.append(Contract("ph", "f1", std_handlers(rng, extra=[Handler("exec", "_under"), Handler("query", "q__q", ret="bool")]), uses=[Use(lib["weird"])], err="std", tags=("dispatch", "irregular")))
     cs.append(Contract("pi", "f1", std_handlers(rng, sudo=False), uses=[Use(lib["alpha"]), Use(lib["delta"], err="own"), Use(lib["eps"])], err="own", tags=T + ("regular",)))
     cs.append(Contract("pj", "f1", std_handlers(rng, sudo=False, migrate=False), uses=[Use(lib["beta"], err="own"), Use(lib["gamma"], t="String")], err="own", tags=T + ("regular",)))
+    # wide signatures: many same-typed parameters (positional mix-ups only show there)
+    wide = Iface(
+        "wide",
+        [
+            Handler("exec", "wide_exec", [Arg("w%d" % k, "u64") for k in range(12)]),
+            Handler("query", "wide_query", [Arg("q%d" % k, "String") for k in range(11)], ret="String"),
+            Handler("sudo", "wide_sudo", [Arg("s%d" % k, "u32") for k in range(10)]),
+        ],
+    )
+    lib["wide"] = wide
+    cs.append(
+        Contract(
+            "pk",
+            "f1",
+            [
+                Handler("instantiate", "instantiate", [Arg("i%d" % k, "u32") for k in range(11)]),
+                Handler("migrate", "migrate", [Arg("m%d" % k, "String") for k in range(10)]),
+                Handler("exec", "go"),
+                Handler("exec", "many", [Arg("p%d" % k, "u64") for k in range(11)]),
+                Handler("exec", "mixed", [Arg("a", "u64"), Arg("b", "String"), Arg("c", "u64"), Arg("d", "String"), Arg("e", "u64"), Arg("f", "String"), Arg("g", "u64"), Arg("h", "String"), Arg("i", "u64"), Arg("jj", "String"), Arg("k", "u64"), Arg("l", "String")]),
+                Handler("query", "lots", [Arg("x%d" % k, "u32") for k in range(13)], ret="String", failarg=True),
+                Handler("query", "probe", [Arg("x", "u32")], ret="u64", failarg=True),
+                Handler("sudo", "plenty", [Arg("z%d" % k, "String") for k in range(10)]),
+            ],
+            uses=[Use(wide)],
+            err="own",
+            tags=T + ("regular",),
+        )
+    )
     # seeded random programs: random handler sets over the closed type set
     words = ["mint", "burn", "lock", "vote", "claim", "stake", "wrap", "list", "info", "cfg", "set_x", "get_y", "do_it", "run9", "ab12_cd"]
     for k in range(4):
@@ -1573,6 +1687,23 @@ thiserror = { workspace = true }
         lib.append("pub mod %s;" % c.mod)
     lib.append(
         "pub fn entries() -> Vec<Entry> {\n    vec![\n%s\n    ]\n}" % "\n".join("        %s::entry()," % c.mod for c in contracts)
+    )
+    # `dyn Interface` handle types used by the contracts of this family
+    combos = []
+    for c in contracts:
+        for u in c.uses:
+            chain = c.custom_chain and ("ExecC" in u.iface.assoc or "QueryC" in u.iface.assoc)
+            key = (u.iface.mod, u.t if "T" in u.iface.assoc else "", chain)
+            if key not in [k for k, _ in combos]:
+                combos.append((key, u.iface))
+    names = []
+    for (mod, t, chain), i in combos:
+        nm, text = emit_dyn_peer(name, i, t, chain, "crate::ifaces")
+        lib.append(text)
+        names.append(nm)
+    lib.append(
+        "pub fn dyn_peers() -> Vec<(&'static str, rt::registry::PeerFns)> {\n    vec![\n%s\n    ]\n}"
+        % "\n".join("        (%s::KEY, %s::PEER)," % (n, n) for n in names)
     )
     files["src/lib.rs"] = "// generated by gen/gen_corpus.py -- do not edit\n" + "\n".join(lib) + "\n"
     return d, files
